@@ -1,6 +1,8 @@
 package main
 
 import (
+	"verifharness/drv"
+
 	"encoding/json"
 	"math/rand"
 
@@ -9,18 +11,18 @@ import (
 )
 
 // C24: HTMLEscape. Case {id, s}; observations {id, fn, s, out} for both entry points.
-func init() {
-	register("c24", &Sub{
+func main() {
+	drv.Main(&drv.Sub{
 		Each: func(c json.RawMessage, seed int64) []any {
 			var k struct {
 				ID int   `json:"id"`
 				S  []int `json:"s"`
 			}
-			must(json.Unmarshal(c, &k))
-			s := string(bytesOf(k.S))
+			drv.Must(json.Unmarshal(c, &k))
+			s := string(drv.BytesOf(k.S))
 			return []any{
-				map[string]any{"id": k.ID, "fn": "scriggo.HTMLEscape", "s": k.S, "out": intsS(string(scriggo.HTMLEscape(s)))},
-				map[string]any{"id": k.ID, "fn": "builtin.HtmlEscape", "s": k.S, "out": intsS(string(builtin.HtmlEscape(s)))},
+				map[string]any{"id": k.ID, "fn": "scriggo.HTMLEscape", "s": k.S, "out": drv.IntsS(string(scriggo.HTMLEscape(s)))},
+				map[string]any{"id": k.ID, "fn": "builtin.HtmlEscape", "s": k.S, "out": drv.IntsS(string(builtin.HtmlEscape(s)))},
 			}
 		},
 		Extra: func(seed int64, n int) []json.RawMessage {
